@@ -1,4 +1,5 @@
 """Shared machinery of the /verif checks: build steps, case generation, suites, evidence."""
+from concurrent.futures import ThreadPoolExecutor
 import fcntl, hashlib, json, os, re, shutil, struct, subprocess, sys, time
 
 VERIF = os.path.dirname(os.path.dirname(os.path.abspath(__file__)))
@@ -1230,6 +1231,51 @@ def run_lines_suite(name, mode_h, mode_d, cases, seed, tier, log):
         name, len(cases), res['okn'], len(res['diffs']), len(res['props']), time.time() - t0))
     prune_cache()
     return res
+
+
+def run_words(seed, tier, log):
+    """the model's ChaCha8 (ChaCha.v, extracted) against the rand_chacha crate: the first words of the stream of many
+    seeds (edge seeds, random ones), beyond the cached blocks too"""
+    key = hashlib.sha256(('%s|%s|%d|%s|words' % (repo_hash(), model_hash(), seed, tier)).encode()).hexdigest()[:24]
+    d = os.path.join(CACHE, key)
+    res_path = os.path.join(d, 'words.json')
+    if os.path.exists(res_path):
+        log('words: cached result %s' % key)
+        os.utime(d)
+        return json.load(open(res_path))
+    os.makedirs(d, exist_ok=True)
+    t0 = time.time()
+    rng = SplitMix64(seed ^ 0xC8AC8A)
+    seeds = [0, 1, 2, 7, 42, 99, 255, 256, 65535, 65536, 2**31 - 1, 2**31, 2**32 - 1, 2**32, 2**32 + 1, 2**53, 2**63 - 1, 2**63, 2**63 + 1, 2**64 - 2, 2**64 - 1]
+    seeds += [rng.below(1 << 64) for _ in range(150 if tier == 'quick' else 3000)] + [rng.below(1 << 16) for _ in range(50)]
+    diffs, okn = [], 0
+    def one(sd, n):
+        a = subprocess.run([HBIN, 'words', str(sd), str(n)], stdout=subprocess.PIPE, text=True, env=ENV, timeout=600).stdout.strip()
+        b = subprocess.run([DRIVER, 'words', str(sd), str(n)], stdout=subprocess.PIPE, text=True, env=ENV, timeout=600).stdout.strip()
+        return a, b
+    with ThreadPoolExecutor(16) as ex:
+        # every 10th seed far beyond the 64 cached blocks (1024 words)
+        results = list(ex.map(lambda t: one(t[1], 2100 if t[0] % 10 == 0 else 300), enumerate(seeds)))
+    for sd, (a, b) in zip(seeds, results):
+        if a and a == b:
+            okn += 1
+        else:
+            wa, wb = a.split(), b.split()
+            k = next((i for i in range(min(len(wa), len(wb))) if wa[i] != wb[i]), min(len(wa), len(wb)))
+            diffs.append(dict(id='seed%d' % sd, step='word %d' % max(0, k - 2), what='words-stream', detail='rand_chacha %s model %s' % (' '.join(wa[k:k + 2]), ' '.join(wb[k:k + 2]))))
+    res = dict(ok=[], diffs=diffs, props=[], stats={}, ncases=len(seeds), okn=okn, nops=sum(len(r[0].split()) for r in results),
+               specs={'seed%d' % sd: 'ChaCha8Rng::seed_from_u64(%d)' % sd for sd in seeds}, samples=['seed %d: %s' % (seeds[4], results[4][1][:80])])
+    json.dump(res, open(res_path, 'w'))
+    log('words: ChaCha8 streams of %d seeds, %d agree with rand_chacha, %.1fs' % (len(seeds), okn, time.time() - t0))
+    return res
+
+
+def gen_seedwit():
+    """census of the implementation -> coq/gen/SeedWit.v + shards (witness seeds for Properties/C12s.v)"""
+    rc, out = sh([sys.executable, os.path.join(VERIF, 'tools', 'gen_seedwit.py'), HBIN, COQ])
+    if rc not in (0, 3):
+        raise Infra('gen_seedwit failed:\n' + out[-1500:])
+    return rc == 0
 
 
 def run_s3(seed, tier, log):
